@@ -172,6 +172,7 @@ func (e *Engine) AnalyzeRoot(fn *ssa.Function, args []*Val) ([]*Path, error) {
 		fr.free = append(fr.free, &Val{Op: "param", ID: 1000 + i, Name: fv.Name(), Type: fv.Type()})
 	}
 	outs := e.execFrom(st, fr, fn.Blocks[0], nil, 0)
+	outs = subsumeZeroCount(outs, 0)
 	var paths []*Path
 	for _, o := range outs {
 		p := &Path{Events: o.st.events, Conds: o.st.conds, Ret: o.ret, Mem: o.st.mem}
@@ -420,6 +421,18 @@ func isAncestorAddr(anc, a *Val) bool {
 }
 
 func (e *Engine) store(st *state, fr *frame, addr, v *Val, instr ssa.Instruction) {
+	// a record assembled in a local and published as a whole (`*r = next`): one store per field
+	if sv := stripCT(v); sv != nil && sv.Op == "struct" && sv.Type != nil {
+		if root := addrRoot(addr); root == nil || (root.Op != "alloc" && root.Op != "makeslice") {
+			if stt, ok := sv.Type.Underlying().(*types.Struct); ok && stt.NumFields() == len(sv.Args) {
+				for i := 0; i < stt.NumFields(); i++ {
+					fa := &Val{Op: "field", ID: i, Name: stt.Field(i).Name(), Args: []*Val{addr}, Type: types.NewPointer(stt.Field(i).Type())}
+					e.store(st, fr, fa, sv.Args[i], instr)
+				}
+				return
+			}
+		}
+	}
 	// invalidate sub-locations
 	for k, me := range st.mem {
 		if k != addr.Key() && isAncestorAddr(addr, me.Addr) {
@@ -1960,6 +1973,57 @@ func isIntegerType(t types.Type) bool {
 	return ok && b.Info()&types.IsInteger != 0
 }
 
+// integerTypeSet: t is an integer type, or a type parameter every type of whose constraint is one.
+func integerTypeSet(t types.Type) bool {
+	if t == nil {
+		return false
+	}
+	if isIntegerType(t) {
+		return true
+	}
+	tp, ok := t.(*types.TypeParam)
+	if !ok {
+		return false
+	}
+	var all func(t types.Type, depth int) bool
+	all = func(t types.Type, depth int) bool {
+		if depth > 6 {
+			return false
+		}
+		switch u := t.(type) {
+		case *types.Union:
+			if u.Len() == 0 {
+				return false
+			}
+			for i := 0; i < u.Len(); i++ {
+				if !all(u.Term(i).Type(), depth+1) {
+					return false
+				}
+			}
+			return true
+		case *types.Interface:
+			if u.NumEmbeddeds() == 0 {
+				return false // no type terms: any type
+			}
+			any := false
+			for i := 0; i < u.NumEmbeddeds(); i++ {
+				// the type set is the intersection of the embedded sets: one all-integer component suffices
+				if all(u.EmbeddedType(i), depth+1) {
+					any = true
+				}
+			}
+			return any
+		case *types.Named, *types.Alias:
+			if _, isI := t.Underlying().(*types.Interface); isI {
+				return all(t.Underlying(), depth+1)
+			}
+			return isIntegerType(t)
+		}
+		return isIntegerType(t)
+	}
+	return all(tp.Constraint().Underlying(), 0)
+}
+
 func isSignedType(t types.Type) bool {
 	b, ok := t.Underlying().(*types.Basic)
 	return ok && b.Info()&types.IsInteger != 0 && b.Info()&types.IsUnsigned == 0
@@ -2014,6 +2078,23 @@ func (e *Engine) convert(st *state, x *Val, from, to types.Type) *Val {
 						return mkConst(constant.MakeInt64(w), to)
 					}
 				}
+			}
+		}
+	}
+	// T(S(y)) with T no wider than S is T(y): S(y) extends y as y's own signedness says (or cuts it to S's width), and T
+	// keeps no more than S's low bits of that – e.g. uint64(int(n)) for an unsigned n
+	if x.Op == "conv" && x.Name == "convert" && len(x.Args) == 1 && x.Args[0].Type != nil && isIntegerType(to) && isIntegerType(x.Type) && integerTypeSet(x.Args[0].Type) {
+		tb, _ := to.Underlying().(*types.Basic)
+		sb, _ := x.Type.Underlying().(*types.Basic)
+		if tb != nil && sb != nil {
+			bt, _ := intBits(tb)
+			bs, _ := intBits(sb)
+			if bt > 0 && bs > 0 && bt <= bs {
+				y := x.Args[0]
+				if types.Identical(y.Type, to) {
+					return y
+				}
+				return &Val{Op: "conv", Name: "convert", Args: []*Val{y}, Type: to}
 			}
 		}
 	}
